@@ -23,5 +23,5 @@ CHECKS = {
                            "from re-delivery of the last block; executed blocks are built from chaintest actions with hand-made results",
                 essential_labels=["notify-expires-more-than-the-one-block", "restart-with-blocks", "gap>=window", "redeliver",
                                   "restart-same-window", "block-with-txs"],
-                stages=[rapid("TestC31", 300, 5000, shrink_s=15)]),
+                stages=[rapid("TestC31", 300, 2500, shrink_s=15)]),
 }
